@@ -236,6 +236,8 @@ pub struct Cfg {
     pub cancel_only: Option<Vec<OpK>>,
     /// the benign continuation goes on until the broker has sent its whole script
     pub drain_script: bool,
+    /// RETAIN flag values offered for every publish (first = default)
+    pub pub_retain: Vec<bool>,
 }
 
 #[derive(Copy, Clone, Debug, PartialEq, Eq)]
@@ -280,6 +282,7 @@ impl Cfg {
             cancel_connect: true,
             cancel_only: None,
             drain_script: false,
+            pub_retain: vec![false],
         }
     }
     pub fn has(&self, p: &str) -> bool {
